@@ -190,6 +190,24 @@ def make_cases(rng, n_points, n_tx):
         total = int(sum(float(s[1:]) if s[0] == "S" else ((len(s) - 1) // 2 * 8 / 520.83) for s in tx.segments()) * rate)
         pfx = rng.choice([2, 2, 0, 4]); inv = rng.choice([5, 5, 0, 8]); pre = rng.choice([2, 2, 0, 5])
         cfg = "pfx=%d inv=%d pre=%d" % (pfx, inv, pre)
+        # every value the constructor DERIVES from the configuration must be derived the same way by reset(): half of the
+        # transmissions use documented non-default builder settings over their whole permitted range (timing bandwidth 0..1,
+        # deviation 0..0.5, DC blocker length, AGC bandwidth and limits, squelch bandwidth)
+        if j % 2 == 1:
+            opts = []
+            if rng.chance(2, 3):
+                tbu = rng.choice([0.75, 1.0, 0.6, 0.3, 0.125, 0.02]); opts.append("tbu=%g tbl=%g" % (tbu, rng.choice([0.05, tbu, 0.0, tbu / 2])))
+            if rng.chance(1, 3):
+                opts.append("tdev=%g" % rng.choice([0.0, 0.02, 0.1, 0.5]))
+            if rng.chance(1, 3):
+                opts.append("dclen=%g" % rng.choice([0.0, 0.1, 1.0, 2.5]))
+            if rng.chance(1, 3):
+                opts.append("agcbw=%g" % rng.choice([0.0, 0.05, 1.0]))
+            if rng.chance(1, 3):
+                opts.append("gmin=0.0000305185 gmax=0.005")
+            if rng.chance(1, 4):
+                opts.append("sqbw=%g" % rng.choice([0.05, 0.5, 1.0]))
+            cfg = " ".join([cfg] + opts)
         ends = tx.burst_end_samples()
         special = []
         for e in ends.values():
